@@ -209,9 +209,40 @@ fn compile_file(cmd: &Value) -> Value {
         "ts" => add_sources(Compiler::<TypescriptBackend, _>::new(), &sources).compile_to_string().ok().map(|r| r.generated),
         _ => add_sources(Compiler::<RasnBackend, _>::new(), &sources).compile_to_string().ok().map(|r| r.generated),
     };
-    let res = catch_unwind(AssertUnwindSafe(|| match backend {
-        "ts" => add_sources(Compiler::<TypescriptBackend, _>::new(), &sources).set_output_mode(rasn_compiler::OutputMode::SingleFile(dest.clone())).compile().map(|w| w.len()).map_err(|e| format!("{e:?}")),
-        _ => add_sources(Compiler::<RasnBackend, _>::new(), &sources).set_output_mode(rasn_compiler::OutputMode::SingleFile(dest.clone())).compile().map(|w| w.len()).map_err(|e| format!("{e:?}")),
+    // builder variants: output mode before / after the sources, the compiler built for the OTHER backend and swapped with
+    // with_backend, the destination directory created only after the compiler was built ("late-dir")
+    let mode_first = cmd["mode_first"].as_bool().unwrap_or(false);
+    let swap = cmd["swap"].as_bool().unwrap_or(false);
+    let late = state == "late-dir";
+    let (dest, file) = if late {
+        let d = root.join("latedir");
+        (d.clone(), d.join(format!("generated{ext}")))
+    } else {
+        (dest, file)
+    };
+    fn build<B1: Backend, B2: Backend>(sources: &[String], dest: &std::path::Path, mode_first: bool, late: bool) -> Result<usize, String> {
+        let mode = rasn_compiler::OutputMode::SingleFile(dest.to_path_buf());
+        let ready = if mode_first {
+            let mut it = sources.iter();
+            let mut c = Compiler::<B1, _>::new().set_output_mode(mode).add_asn_literal(it.next().cloned().unwrap_or_default());
+            for s in it {
+                c = c.add_asn_literal(s.clone());
+            }
+            c
+        } else {
+            add_sources(Compiler::<B1, _>::new(), sources).set_output_mode(mode)
+        };
+        let ready = ready.with_backend(B2::default());
+        if late {
+            let _ = std::fs::create_dir_all(dest);
+        }
+        ready.compile().map(|w| w.len()).map_err(|e| format!("{e:?}"))
+    }
+    let res = catch_unwind(AssertUnwindSafe(|| match (backend, swap) {
+        ("ts", false) => build::<TypescriptBackend, TypescriptBackend>(&sources, &dest, mode_first, late),
+        ("ts", true) => build::<RasnBackend, TypescriptBackend>(&sources, &dest, mode_first, late),
+        (_, false) => build::<RasnBackend, RasnBackend>(&sources, &dest, mode_first, late),
+        (_, true) => build::<TypescriptBackend, RasnBackend>(&sources, &dest, mode_first, late),
     }));
     let content = std::fs::read_to_string(&file).ok();
     let entries: Vec<String> = walk(&root).into_iter().map(|p| p.strip_prefix(&root).map(|q| q.display().to_string()).unwrap_or_default()).collect();
